@@ -134,7 +134,7 @@ class SockRunner:
             if self.sock.gate.parked.is_set():
                 return
             time.sleep(0.0002)
-        raise core.Infra('receiver thread neither parked nor dead')
+        raise core.Broken('receiver thread neither parked nor dead (the unchanged connection always parks in select() or ends)')
 
     def act(self, a):
         from udsoncan.exceptions import TimeoutException
